@@ -623,6 +623,7 @@ type Upd struct {
 	Delete          bool           // UpdateFunc only: return nil
 	BadExp          bool           // set _expiresAt to a non-time
 	SpellingOfOwnID bool           // set _id to the other letter case of the document's own id
+	NilMap          bool           // Update(map) only: hand over a nil map (no change at all)
 	Raw             map[string]any // optional: for a path of Set, the same value as non-canonical Go types (handed to clover instead)
 }
 
@@ -715,6 +716,9 @@ func (u *Upd) callback(calls *[]updCall) func(*document.Document) *document.Docu
 }
 
 func (u *Upd) asMap() map[string]any {
+	if u.NilMap && len(u.Set) == 0 && u.NewID == "" && !u.BadExp {
+		return nil
+	}
 	m := map[string]any{}
 	for k := range u.Set {
 		m[k] = u.real(k)
